@@ -689,6 +689,16 @@ def enclosing_handler(node):
 _FLIP = {ast.Gt: ast.Lt, ast.GtE: ast.LtE}
 
 
+def _clone(node):
+    """A private copy of an AST fragment.  (copy.deepcopy would follow the `_parent` / `_module` links the model adds and
+    copy the whole module.)"""
+    text = ast.unparse(node)
+    if isinstance(node, ast.expr):
+        return ast.parse(text, mode="eval").body
+    body = ast.parse(text).body
+    return body[0] if len(body) == 1 else ast.Module(body=body, type_ignores=[])
+
+
 class _CanonCmp(ast.NodeTransformer):
     """`a > b` -> `b < a`, `a >= b` -> `b <= a`, `not a == b` stays; `a != b` stays (symmetric ones are sorted by text)."""
 
@@ -707,9 +717,7 @@ class _CanonCmp(ast.NodeTransformer):
 
 def ctext(node):
     """Canonical text of an expression/statement: comparisons are printed in the `<` / `<=` direction."""
-    import copy
-
-    return ast.unparse(_CanonCmp().visit(copy.deepcopy(node)))
+    return ast.unparse(_CanonCmp().visit(_clone(node)))
 
 
 def ctext_of(text):
@@ -779,7 +787,7 @@ def subst_names(node, mapping):
                 return ast.copy_location(ast.Name(id=mapping[n.id], ctx=n.ctx), n)
             return n
 
-    return ast.unparse(R().visit(copy.deepcopy(node)))
+    return ast.unparse(R().visit(_clone(node)))
 
 
 def _with_value(fn, name):
@@ -819,7 +827,7 @@ def role_text(fn, expr, depth=6, params_as=None):
         node = ast.parse(expr.strip(), mode="eval").body
         fn = None
     else:
-        node = copy.deepcopy(expr)
+        node = _clone(expr)
 
     def bound_in_comps(n):
         out = set()
@@ -843,7 +851,7 @@ def role_text(fn, expr, depth=6, params_as=None):
                     if v is None:
                         v = _with_value(fn, x.id)
                     if v is not None and not isinstance(v, (ast.Lambda,)):
-                        return inline(copy.deepcopy(v), d - 1, stack | {x.id})
+                        return inline(_clone(v), d - 1, stack | {x.id})
                 return x
 
         return T().visit(n)
